@@ -167,7 +167,10 @@ where
     }
 
     fn call(&mut self, req: Req) -> Self::Future {
-        let mut inner = self.inner.clone();
+        // Call the instance that was driven to readiness by poll_ready and leave a
+        // fresh clone behind (a clone has not been polled ready)
+        let clone = self.inner.clone();
+        let mut inner = std::mem::replace(&mut self.inner, clone);
         let config = Arc::clone(&self.config);
 
         // Extract timeout from request before moving it
